@@ -143,3 +143,9 @@ Proof.
   destruct (szx <? 7) eqn:E; [|lia]. rewrite size_spec by lia. unfold spec_size.
   destruct (szx =? 7) eqn:E7; [lia|reflexivity].
 Qed.
+
+Theorem bert_buffer_small : forall m, 0 <= m < 1024 -> buffer_size 7 m = 0.
+Proof.
+  intros m Hm. unfold buffer_size, szxBERT. change (7 <? 7) with false. cbv iota.
+  change (size 7) with 1024. rewrite Z.quot_div_nonneg by lia. lia.
+Qed.
